@@ -174,7 +174,11 @@ def model_conformance(ctx, projected, horizon):
             scn = SCENARIOS[name]
             res = e4.directed_replay(ctx.binary, scn["script"], cx, horizon)
             if res is None:
-                raise Machinery(f"E4: the model counterexample for {sc} cannot be followed on the real code: {cx}")
+                # the model lets a finite eval finish after any number of steps; a counterexample that needs a step count the
+                # concrete program of the scenario does not have is not realisable and says nothing about the code
+                reproduced.append({"script": sc, "model_trace": cx, "reproduced_on_code": False,
+                                   "reason": "not realisable with the step count of the scenario's concrete program (the model over-approximates it)"})
+                continue
             before = set(ctx.violations)
             check_exec(ctx, name, scn, res, [p["choice"] for p in res["trace"]], -1)
             hit = set(ctx.violations) - before or {s for s in ctx.violations if "store landed between" in s}
